@@ -169,29 +169,78 @@ func runC17(c *Ctx) {
 			}
 			nApp++
 			t := u.C.Term(s.RHS)
-			r.Check("C17-D4", u.Name+": the ring takes the head of the current data centre's list", u.Pos(s.Pos), t == "append(combined, sortedNodeNameList[(idx_2 % len(sortedNodeNameList))][0])", "appended "+t)
-			// and then drops that head from the list
+			// the slot S of the list that is read: append(combined, sortedNodeNameList[S][0])
+			const pre, post = "append(combined, sortedNodeNameList[", "][0])"
+			slot := ""
+			if strings.HasPrefix(t, pre) && strings.HasSuffix(t, post) {
+				slot = t[len(pre) : len(t)-len(post)]
+			}
+			r.Check("C17-D4", u.Name+": the ring takes the head of the current data centre's list", u.Pos(s.Pos), slot != "", "appended "+t)
+			// S is the running index modulo the number of lists: written out, or a local defined as that
+			turn := slot == "(idx_2 % len(sortedNodeNameList))"
+			if !turn {
+				u.InspectAll(func(n ast.Node) bool {
+					if id, ok := n.(*ast.Ident); ok && !turn {
+						if o := u.Info().Defs[id]; o != nil && u.C.Term(id) == slot {
+							if def := u.C.SingleDef(o); def != nil && u.C.Term(def) == "(idx_2 % len(sortedNodeNameList))" {
+								turn = true
+							}
+						}
+					}
+					return !turn
+				})
+			}
+			r.Check("C17-D4", u.Name+": the current data centre is the running index modulo the number of lists", u.Pos(s.Pos), turn, "slot "+slot)
+			// and then drops that head from the same list
 			fol := false
 			for _, d := range u.Sites {
-				if d.Kind == flow.SStore && d.Block == s.Block && s.SameBlockBefore(d) && d.RHS != nil &&
-					u.C.Term(d.LHS) == "sortedNodeNameList[(idx_2 % len(sortedNodeNameList))]" && u.C.Term(d.RHS) == "sortedNodeNameList[(idx_2 % len(sortedNodeNameList))][1:]" {
+				if d.Kind == flow.SStore && d.Block == s.Block && s.SameBlockBefore(d) && d.RHS != nil && slot != "" &&
+					u.C.Term(d.LHS) == "sortedNodeNameList["+slot+"]" && u.C.Term(d.RHS) == "sortedNodeNameList["+slot+"][1:]" {
 					fol = true
 				}
 			}
 			r.Check("C17-D4", u.Name+": the taken node is removed from its list (no node enters the ring twice)", u.Pos(s.Pos), fol, "")
-			r.GuardSite("C17-D4", u, s, c.W.Parse("!(0 == len(sortedNodeNameList[(idx_2 % len(sortedNodeNameList))]))"), "the list is not empty")
+			if slot != "" {
+				r.GuardSite("C17-D4", u, s, c.W.Parse("!(0 == len(sortedNodeNameList["+slot+"]))"), "the list is not empty")
+			}
+			// idx advances exactly once on every trip round the loop, whether a node was taken or the list was empty
+			var loop *ast.ForStmt
+			u.InspectAll(func(n ast.Node) bool {
+				if f, ok := n.(*ast.ForStmt); ok && f.Pos() <= s.Pos && s.Pos < f.End() {
+					loop = f // innermost wins
+				}
+				return true
+			})
+			once := false
+			detail := "the append is not inside a for loop"
+			if loop != nil {
+				totals, known := an.PerTrip(u.Info(), loop.Body, func(st ast.Stmt) bool {
+					switch x := st.(type) {
+					case *ast.IncDecStmt:
+						return x.Tok == token.INC && localName(u, x.X) == "idx"
+					case *ast.AssignStmt:
+						return len(x.Lhs) == 1 && len(x.Rhs) == 1 && localName(u, x.Lhs[0]) == "idx" && x.Tok == token.ADD_ASSIGN && u.C.Term(x.Rhs[0]) == "1"
+					}
+					return false
+				})
+				once = known && len(totals) == 1 && totals[1]
+				detail = fmt.Sprintf("advances per trip: %v (walk complete: %v)", sortedKeys(totals), known)
+				// and the only other store to idx is its initialisation before the loop
+				for _, d := range u.Match(an.LocalStore("idx")) {
+					if d.Tok.String() == "++" || (d.Tok.String() == "+=" && d.RHS != nil && u.C.Term(d.RHS) == "1") {
+						continue
+					}
+					if !(d.Pos < loop.Pos() && d.RHS != nil && u.C.Term(d.RHS) == "0") {
+						once = false
+						detail += "; idx is also assigned at " + u.Pos(d.Pos)
+					}
+				}
+			}
+			r.Check("C17-D4", u.Name+": the data-centre index advances once per trip, after every take and every empty list", u.Pos(s.Pos), once, detail)
 		}
 		r.Min("C17-D4", nApp, 1, "ring append sites")
 		srt := u.Match(an.Call("sort.Sort"))
 		r.Check("C17-D4", u.Name+": each per-DC list is sorted before interleaving", "", len(srt) == 1 && strings.HasPrefix(u.ArgTerm(srt[0], 0), "nList"), "")
-		// idx advances on both arms of the loop
-		nInc := 0
-		for _, s := range u.Match(an.LocalStore("idx")) {
-			if s.Tok.String() == "++" {
-				nInc++
-			}
-		}
-		r.Check("C17-D4", u.Name+": the data-centre index advances after every take and every empty list", "", nInc == 2, fmt.Sprintf("%d increments", nInc))
 	}
 
 	// ---- D3: callers
@@ -756,4 +805,13 @@ func c17ExcludedNeverPut(u *an.Unit, exclTerm string, puts []*an.Site) bool {
 		}
 	}
 	return found
+}
+
+func sortedKeys(m map[int]bool) []int {
+	var out []int
+	for k := range m {
+		out = append(out, k)
+	}
+	sort.Ints(out)
+	return out
 }
